@@ -176,19 +176,6 @@ theorem c01_float_int (x : F) : holds .isInt (.f x) = specIsIntF x := by
 example : NumChecks.holds (.multF (F.ofBits 0x3FB999999999999A)) (.f (F.ofBits 0x3FD3333333333333)) = true := by
   decide +kernel   -- 0.3 is a multiple of 0.1 under the ε-rule (math.Mod gives 0.09999999999999998)
 
-/-! ### Enum / Literal: membership with Go's interface equality (type and value) -/
-
-/-- A Go value as an interface holds: dynamic type tag and payload. Two are `==` iff both agree. -/
-structure Dyn where
-  ty : String
-  repr : String
-  deriving DecidableEq, Repr
-
-def enumAccepts (values : List Dyn) (x : Dyn) : Bool := values.contains x
-
-theorem c01_enum_iff (values : List Dyn) (x : Dyn) : enumAccepts values x = true ↔ x ∈ values := by
-  simp [enumAccepts]
-
-example : enumAccepts [⟨"int", "1"⟩, ⟨"int", "2"⟩] ⟨"int64", "1"⟩ = false := by decide
+/-! Enum / Literal membership (Go's `==` on interface values): Model/GoEq.lean, Proofs/C01Enum.lean. -/
 
 end Gozod.C01
